@@ -154,6 +154,13 @@ def check(h):
                 viol('C12.e', 'segack-window-exceeds-proposal', '%s acknowledged with window %d a transfer whose first segment proposed %d'
                      % (node, a['win'], firsts[-1][1]))
 
+    # C12.e -- the window USED: never more segments in flight than the window the receiver declared in its latest
+    # segment-ack (one before the first ack).  Same sender-side monitor as C05.b, reported under this property's clause.
+    from . import c05
+    for v in c05.check_wire(h):
+        if v['sigkey'] in ('unacked-first', 'window-overrun', 'proposed-window-range'):
+            viol('C12.e', 'used-' + v['sigkey'], v['detail'])
+
     # C12.d -- infeasible transfers end in an abort for the requester
     if not h.w.plan.fired and not h.timed_fired:
         for r in h.reqs:
@@ -323,8 +330,8 @@ def gen_desc(seed, idx):
             if op['op'] == 'req' and op['c'] == 'c0':
                 op['rq'] = rng.choice(big)
                 op['rs'] = rng.choice(big)
-        faults = {'mode': 'hashed', 'rates': {rng.choice(['delay', 'delay', 'drop']): 0.5}, 'roles': ['segack-s'], 'salt': rng.randrange(1 << 30),
-                  'delays': [0.001, 0.3], 'gaps': [0.0]}
+        faults = {'mode': 'hashed', 'rates': {rng.choice(['delay', 'delay', 'drop']): 0.5}, 'roles': rng.choice([['segack-s'], ['segack-s'], ['cack-first', 'segack-c'], ['cack-first']]),
+                  'salt': rng.randrange(1 << 30), 'delays': [0.001, 0.3, 1.2], 'gaps': [0.0], 'max': rng.choice([1, 2, None])}
     elif iam and len(stacks) == 2 and rng.random() < 0.06:
         # the peer's I-Am is late (arrives after the first transmission) and the first transmission is lost: the RETRY is a
         # new sending decision and has to respect what was announced in between
